@@ -541,7 +541,11 @@ def r5_ducb(ck, repo, nf: NF):
         # the sum must be mean + padding (not a difference): the argmax argument has two positive terms
         u = sorted(kinds["ucb"])[0]
         inner = nfp.meta.get(u, {}).get("args", [None])[0]
-        okucb = inner is not None and len(inner.terms) == 2 and all(c == 1 for c in inner.terms.values())
+        def _coef(name):
+            cs = [c for m_, c in inner.terms.items() if any(name in a_ for a_, _ in m_)]
+            return cs
+        okucb = inner is not None and _coef("_discounted_empirical_mean") == [1] and _coef("_padding_function") == [1] \
+            and all(any(n_ in a_ for a_, _ in m_ for n_ in ("_discounted_empirical_mean", "_padding_function")) or all(a_ == "()" for a_, _ in m_) for m_ in inner.terms)
     ck.ob("R5-scheduler", q, "ucb-argmax", okucb, f"arm = {sorted(kinds.get('ucb', ['?']))[0][:100]}", "" if okucb else "after the initial rounds the arm is not argmax(discounted mean + padding)", loc(mi, fn))
     items2 = [(c, k if not k.startswith("other:") else "ucb") for c, k in items]
     pred = parse_expr("len(self.rewards) < 2 * self.n_arms")
@@ -693,65 +697,14 @@ def r5_budget_symbolic(ck, repo, nf: NF, qual: str, budget: str):
         for c in ast.walk(n.ast):
             if isinstance(c, ast.Call) and isinstance(c.func, ast.Name) and c.func.id == "train_st":
                 kw = {k.arg: k.value for k in c.keywords}
-                okb = dotted(kw.get("total_timesteps")) == budget if kw.get("total_timesteps") is not None else False
-                okc = dotted(kw.get("global_step")) == G if kw.get("global_step") is not None else False
+                ssc = Scope(cfg, mi, {}, qual)
+                ssc.opaque_names = {G, budget}
+                okb = nf.poly(kw["total_timesteps"], ssc, n.id).canon() == budget if kw.get("total_timesteps") is not None else False
+                okc = nf.poly(kw["global_step"], ssc, n.id).canon() == G if kw.get("global_step") is not None else False
                 ck.ob("R5-scheduler", site, "subcall-budget", okb, f"train_st(total_timesteps={short(kw['total_timesteps']) if 'total_timesteps' in kw else None})",
                       "" if okb else f"the single-task routine is not given the scheduler's remaining budget `{budget}`", loc(mi, c))
                 ck.ob("R5-scheduler", site, "subcall-counter", okc, f"train_st(global_step={short(kw['global_step']) if 'global_step' in kw else None})",
                       "" if okc else "the single-task routine does not start from the scheduler's global step counter", loc(mi, c))
-    if qual.endswith("train_uts"):
-        return
-    # symbolic difference  d = sum(training_steps adds) - (global_step - start), tracked as a canonical polynomial
-    POLYS = _PolyTable()
-
-    def padd(dtxt, p):
-        q = POLYS.get(dtxt) + p
-        return POLYS.put(q)
-
-    def transfer2(nid, succ, lab, st):
-        n = cfg.nodes[nid]
-        s = n.ast
-        if n.kind == "stmt" and isinstance(s, ast.AugAssign) and isinstance(s.op, ast.Add):
-            if isinstance(s.target, ast.Subscript) and dotted(s.target.value) == "training_steps":
-                return padd(st, nf.poly(s.value, sc, nid))
-            if isinstance(s.target, ast.Name) and s.target.id == G:
-                return padd(st, -nf.poly(s.value, sc, nid))
-        if n.kind == "stmt" and isinstance(s, ast.Assign) and len(s.targets) == 1 and isinstance(s.targets[0], ast.Name) and s.targets[0].id == G:
-            if not cfg.enclosing_loops(nid):
-                return z  # the starting value of the counter is defined here
-            return padd(st, nf.name(G, sc, nid) - nf.poly(s.value, sc, nid))
-        return st
-
-    z = POLYS.put(Poly({}))
-    def _bounded(st):
-        p = POLYS.get(st)
-        return len(p.terms) <= 6 and all(abs(c) <= 2 for c in p.terms.values())
-
-    parent, problems = explore(cfg, z, transfer2, bound=_bounded, max_states=20000)
-    # check points: loop header re-entry and every return
-    seen_vals = {}
-    for (nid, st) in parent:
-        node = cfg.nodes[nid]
-        if nid == H.id or (node.kind == "stmt" and isinstance(node.ast, ast.Return)):
-            seen_vals.setdefault(("header" if nid == H.id else "return", st), (nid, st))
-    n_states = len(parent)
-    ck.count("R5-symbolic-states", n_states)
-    for (kind, st), key in sorted(seen_vals.items()):
-        p = POLYS.get(st)
-        ok = p.is_zero()
-        txt = p.canon()
-        if not ok and kind == "return":
-            # accepted tail: the per-task totals were topped up to the full budget (sum == budget - start)
-            g_at = nf.name(G, sc, key[0])
-            if (p - (Poly.atom(budget, {budget}, {budget}) - g_at)).is_zero() or txt == f"{budget} - {g_at.canon()}":
-                ok = True
-        path = [k[0] for k in path_to(parent, key)]
-        ck.ob("R5-scheduler", site, f"steps-conserved:{kind}:{_stable(txt)}", ok, f"sum(training_steps) - ({G} - start) = {txt} at {kind}",
-              "" if ok else f"per-task step totals and the global counter diverge by `{txt}` on a path to the {kind}", loc(mi, cfg.nodes[key[0]].ast),
-              None if ok else _compress(cfg, path))
-    for nid, st, text, key in problems[:1]:
-        ck.ob("R5-scheduler", site, "steps-conserved:drift", False, "symbolic difference grows without bound", text, loc(mi, cfg.nodes[nid].ast),
-              _compress(cfg, [k[0] for k in path_to(parent, key)]))
 
 
 def r5_budget_exact(ck, repo, nf: NF, qual: str, budget: str):
@@ -818,7 +771,20 @@ def r5_budget_exact(ck, repo, nf: NF, qual: str, budget: str):
     def transfer(nid, succ, lab, st):
         n = cfg.nodes[nid]
         if st == "init":
-            return pack({G: g0}, zero, None) if nid == S.id else None
+            if nid != S.id:
+                return None
+            env0_ = {G: g0}
+            # locals that hold a copy of the counter at the call (parameter copies of expanded helpers)
+            scS = Scope(cfg, mi, {}, qual)
+            gS = nf.name(G, scS, S.id).canon()
+            for x_ in rel:
+                if x_ != G:
+                    try:
+                        if nf.name(x_, scS, S.id).canon() == gS:
+                            env0_[x_] = g0
+                    except Exception:
+                        pass
+            return pack(env0_, zero, None)
         if nid in stops:
             return None
         visited_nodes.add(nid)
@@ -843,7 +809,17 @@ def r5_budget_exact(ck, repo, nf: NF, qual: str, budget: str):
                     env = dict(env)
                     env[tg.id] = v
             elif any(isinstance(t, (ast.Tuple, ast.List)) and any(isinstance(e, ast.Name) and e.id in rel for e in t.elts) for t in tgs):
-                raise AnalysisError(f"{site}: `{short(s, 60)}` rebinds a step counter by unpacking: accounting idiom not recognised")
+                t0 = tgs[0]
+                if isinstance(s, ast.Assign) and len(tgs) == 1 and isinstance(s.value, (ast.Tuple, ast.List)) and len(s.value.elts) == len(t0.elts):
+                    # element-wise `a, b = (x, y)` (e.g. produced by helper expansion)
+                    pe = sympath.PathEval(nf, cfg, mi, qual, env)
+                    vals = [pe.ev(v_) for v_ in s.value.elts]
+                    env = dict(env)
+                    for e_, v_ in zip(t0.elts, vals):
+                        if isinstance(e_, ast.Name) and e_.id in rel:
+                            env[e_.id] = v_
+                else:
+                    raise AnalysisError(f"{site}: `{short(s, 60)}` rebinds a step counter by unpacking: accounting idiom not recognised")
         return pack(env, dT, early)
 
     parent, problems = explore(cfg, "init", transfer, start=S.id, max_states=20000)
@@ -872,6 +848,14 @@ def r5_budget_exact(ck, repo, nf: NF, qual: str, budget: str):
                       "the per-task totals cannot account for a call that ran into the budget on this path", loc(mi, node.ast) if node.ast is not None else loc(mi, fn), _compress(cfg, path))
             continue
         if not early:
+            # the executed steps of a completed call are the recorded episode lengths: sum(<statistics wrapper>.length_queue); the
+            # wrapper's local name is whatever the code (or an expanded helper) calls it
+            import re as _re
+            qa = sorted({a_ for p_ in (gend - g0, dT) for a_ in p_.atoms() if _re.match(r"^sum\(.*length_queue\)$", a_)})
+            if len(qa) == 1:
+                Q = Poly.atom(qa[0], {qa[0]}, {qa[0]})
+            elif len(qa) > 1:
+                raise AnalysisError(f"{site}: several episode-length sums {qa} in the step accounting (unrecognised idiom)")
             okg = (gend - g0 - Q).is_zero()
             okt = (dT - Q).is_zero()
             sig = (kind, "normal", (gend - g0).canon(), dT.canon())
